@@ -698,6 +698,9 @@ def flag_specs(quick):
                 if n >= 2:
                     extras.append((allbits,))             # an alias for all flags
                     extras.append((bits[0] | bits[-1], 0)) if n >= 3 else extras.append((0,))
+                free = [b for b in singles if b not in bits]
+                if free:
+                    extras.append((bits[0] | free[0],))   # a multi-bit member one of whose bits has no name of its own
                 for ex in extras:
                     for bnd in (None, "STRICT", "CONFORM", "EJECT", "KEEP"):
                         out.append(("Flag", w, False, tuple(bits) + tuple(ex), bnd))
@@ -887,8 +890,14 @@ def check_enum(spec, out):
             if "~" in built:
                 n("evaluations", 2)
                 n("flag_op_evaluations", 2)
-                want = _raw(~pa, w)
+                try:
+                    want = _raw(~pa, w)
+                except Exception:
+                    want = None            # Python itself has no result for this operand
+                    n("python_flag_op_undefined")
                 g1, g2 = ctx.get(Value.cast(built["~"])), ctx.get(outs["~"])
+                if want is None:
+                    g1 = g2 = None
                 if g1 != want or g2 != want:
                     v("flag.op", f"~:{ra}", f"~view({ra}) = {g1} (ctx.get) / {g2} (comb), Python ~{pa!r} = {~pa!r} i.e. {want}")
             for rb in valid:
@@ -902,7 +911,11 @@ def check_enum(spec, out):
                         continue
                     n("evaluations", 2)
                     n("flag_op_evaluations", 2)
-                    py = f(pa, pb)
+                    try:
+                        py = f(pa, pb)
+                    except Exception:
+                        n("python_flag_op_undefined")
+                        continue
                     want = _raw(py, w)
                     g1, g2 = ctx.get(Value.cast(built[op])), ctx.get(outs[op])
                     if g1 != want or g2 != want:
@@ -921,7 +934,11 @@ def check_enum(spec, out):
                 for op, f in ops.items():
                     n("evaluations", 2)
                     n("flag_op_evaluations", 2)
-                    want = _raw(f(pa, pm), w)
+                    try:
+                        want = _raw(f(pa, pm), w)
+                    except Exception:
+                        n("python_flag_op_undefined")
+                        continue
                     try:
                         g1 = ctx.get(Value.cast(f(sig, mb)))
                         g2 = ctx.get(Value.cast(f(mb, sig)))
